@@ -149,6 +149,56 @@ fn walk_tree<'a>(node: EntriesTreeNode<'_, '_, R<'a>>, out: &mut Vec<Item>) -> g
     Ok(())
 }
 
+/// a caller that leaves child lists unfinished (see `treeSkip` in lean/Gimli/Model/Die.lean)
+fn walk_tree_skip<'a>(node: EntriesTreeNode<'_, '_, R<'a>>, out: &mut Vec<Item>) -> gimli::Result<()> {
+    let it0 = item_of(node.entry());
+    out.push(it0);
+    match it0.0 % 3 {
+        0 => {
+            let mut it = node.children();
+            while let Some(child) = it.next()? {
+                walk_tree_skip(child, out)?;
+            }
+        }
+        1 => {}
+        _ => {
+            let mut it = node.children();
+            if let Some(child) = it.next()? {
+                walk_tree_skip(child, out)?;
+            }
+        }
+    }
+    Ok(())
+}
+
+/// the same rule on the expected listing (`rel[0]` is the node; returns the index behind its subtree)
+fn expect_tree_skip(rel: &[Item], k: usize, out: &mut Vec<Item>) {
+    let me = rel[k];
+    out.push(me);
+    // children: the non-null items at depth me.1 + 1 before the first item at depth <= me.1
+    let mut kids = Vec::new();
+    let mut j = k + 1;
+    while j < rel.len() && rel[j].1 > me.1 {
+        if rel[j].1 == me.1 + 1 && rel[j].2 != 0 {
+            kids.push(j);
+        }
+        j += 1;
+    }
+    match me.0 % 3 {
+        0 => {
+            for c in kids {
+                expect_tree_skip(rel, c, out);
+            }
+        }
+        1 => {}
+        _ => {
+            if let Some(&c) = kids.first() {
+                expect_tree_skip(rel, c, out);
+            }
+        }
+    }
+}
+
 /// one navigation style over the first unit: the entries seen and how it ended
 fn navigate<'a>(style: &str, h: &UnitHeader<R<'a>>, abbrevs: &Abbreviations, start: Option<usize>) -> Result<(Vec<Item>, String), gimli::Error> {
     let mut out: Vec<Item> = Vec::new();
@@ -245,10 +295,10 @@ fn navigate<'a>(style: &str, h: &UnitHeader<R<'a>>, abbrevs: &Abbreviations, sta
                 }
             }
         }
-        "tree" => {
+        "tree" | "treeskip" => {
             let mut tree = h.entries_tree(abbrevs, so)?;
             let r = match tree.root() {
-                Ok(root) => walk_tree(root, &mut out),
+                Ok(root) => if style == "tree" { walk_tree(root, &mut out) } else { walk_tree_skip(root, &mut out) },
                 Err(x) => Err(x),
             };
             if let Err(x) = r {
@@ -286,6 +336,14 @@ fn expected(style: &str, e: &[Item], start: Option<usize>) -> Option<(Vec<Item>,
                     out.push(i);
                 }
             }
+            (out, ok)
+        }
+        "treeskip" => {
+            if rel[0].2 == 0 {
+                return Some((vec![], "NoEntryAtGivenOffset".into()));
+            }
+            let mut out = Vec::new();
+            expect_tree_skip(&rel, 0, &mut out);
             (out, ok)
         }
         "tree" => {
@@ -810,6 +868,10 @@ fn gen_unit(rng: &mut Rng) -> Option<UnitCase> {
     let mut abbrev = junk.clone();
     let term = rng.chance(5, 6);
     abbrev.extend(abbrev_bytes(rng, &decls, &order, term));
+    // keep the request lines short (the Model reads byte lists): big attribute blobs add nothing here
+    if l.bytes.len() > 600 && !rng.chance(1, 40) {
+        return None;
+    }
     let (hb, text) = header_bytes(rng, &cfg, sect, ut, junk.len() as u64, l.bytes.len(), 0);
     let mut section = hb;
     section.extend(&l.bytes);
@@ -822,7 +884,7 @@ fn es(c: &Cfg) -> &'static str {
 
 pub fn gen(ctx: &Ctx, emit: &mut dyn FnMut(String)) {
     let mut rng = ctx.rng(2);
-    const STYLES: &[&str] = &["raw", "rawskip", "entry", "dfs", "sib", "tree"];
+    const STYLES: &[&str] = &["raw", "rawskip", "entry", "dfs", "sib", "tree", "treeskip"];
     let n = ctx.n(1500, 30000);
     let mut made = 0;
     let mut tries = 0;
